@@ -122,6 +122,10 @@ def cases(tier, seed, i, n):
                     yield dict(kind='stub', outcomes=pat, mn=mn, mx=mx, mode=mode, rseed=pi * 100 + si,
                                exit_at=(None, 0, 1, 7, 40)[(pi + si) % 5], attempts=(12, 60, 300)[(pi + si) % 3],
                                kw=dict(poll=(5, 0.5, 2)[si % 3], ping_rate=(30, 0, 7)[pi % 3], ping_timeout=(None, 60, 3)[(pi + si) % 3]))
+        for mn, mx, mode in ((5, 30, 'max'), (0, 1e308, 'rand'), (1, 2, 'zero')):
+            # hours of outage: thousands of consecutive failed attempts
+            yield dict(kind='stub', outcomes=['connect_fail'], mn=mn, mx=mx, mode=mode, rseed=7, exit_at=None, attempts=2500,
+                       kw=dict(poll=5, ping_rate=30, ping_timeout=None))
         for _ in range(1500 if tier == 'quick' else 60000):
             mn = rnd.choice((0, 0.1, 1, 5, 17))
             mx = mn + rnd.choice((0, 0.5, 1, 2, 3, 7.5, 25, 100, 5000))
@@ -202,7 +206,7 @@ def run_stub(case, acc):
         g = env.persist(ws, min_wait=case['mn'], max_wait=case['mx'], exit_event=ex, **case['kw'])
         limit = case['attempts']
         try:
-            while len(ws.calls) <= limit and len(got) < 20000:
+            while len(ws.calls) <= limit and len(got) < 200000:
                 got.append(next(g))
         except StopIteration:
             ended = True
